@@ -114,9 +114,9 @@ class ConstraintKMeans(KMeans):
         :param y: Ignored
         :param sample_weight: sample weight
         """
-        max_iter = self.max_iter
-        self.max_iter //= 2
         if self.kmeans0:
+            max_iter = self.max_iter
+            self.max_iter //= 2
             try:
                 KMeans.fit(self, X, y, sample_weight=sample_weight)
             finally:
@@ -134,7 +134,6 @@ class ConstraintKMeans(KMeans):
             self.inertia_ = float(X.shape[0])
             self.n_iter_ = 0
 
-        self.max_iter = max_iter
         return self.constraint_kmeans(
             X,
             sample_weight=sample_weight,
